@@ -302,6 +302,11 @@ class StmtMixin:
             j = z3.simplify(self.norm_index(i, z3.IntVal(p.rowlen)))
             p.vals = z3.Store(p.vals, base.key, z3.Store(z3.Select(p.vals, base.key), j, self.as_int(v)))
             return
+        if isinstance(base, VObj) and base.cls == "<opaque>":
+            # a store into an opaque mapping (env and what hangs off it): outside the modelled heap; the contract of the
+            # function says nothing about it and nothing modelled can alias it
+            self.assumption_log.add("stores into opaque mappings (env) do not alias modelled state")
+            return
         raise Unsupported(f"subscript store on {base!r}")
 
     def s_Delete(self, st, fr):
